@@ -11,19 +11,19 @@ func init() {
 		NotDecided: "correctness of the hash implementations; that Verify's re-scan after an algorithm switch reads exactly the bytes written; pre-existing corrupt files in a directory.",
 	})
 	registerProperty(&Property{ID: "C02", DesignRef: "DESIGN.md §4 C02, §3.3",
-		Rules:      []string{"TS-BOUNDREAD", "TS-ACK", "TS-SERVE", "TS-CONTENT-FIRST#push", "TS-STORED-THEN-INDEXED#push", "TS-REFUSE#push", "TS-REFUSE#upload", "SH-WORKLIST#complete", "SH-SCAN-QUEUE", "SH-CONVERT-MARK#loader", "SH-WORKLIST#skip-set", "SH-SWEEP-GUARD#safety", "SH-ROOTS#safety", "TS-TAGKEEP", "TB-MEDIATYPE", "FS-CLEANUP"},
+		Rules:      []string{"TS-BOUNDREAD", "TS-ACK", "TS-SERVE", "TS-CONTENT-FIRST#push", "TS-STORED-THEN-INDEXED#push", "TS-REFUSE#push", "TS-REFUSE#upload", "SH-WORKLIST#complete", "SH-SCAN-QUEUE", "SH-CONVERT-MARK#loader", "SH-WORKLIST#skip-set", "SH-SWEEP-GUARD#safety", "SH-ROOTS#safety", "TS-TAGKEEP", "TB-MEDIATYPE", "FS-CLEANUP", "TS-SAVE#api"},
 		Technique:  techPath,
-		Decided:    "the manifest body is read through a bound above the limit and an oversized body is refused on every path to the insert (never stored cut); no 2xx / `return nil` is reachable when a commit call failed, was not tested or was discarded (abstract error values tracked per path); content is stored before the index entry naming it; served headers and body come from the recorded descriptor; the child descriptors of nested indexes are rebuilt completely on every index load (worklist discipline of the scan), so manifests acknowledged by digest stay addressable after a restart; the collector removes nothing a retained manifest references (skip-set discipline, sweep guards and root selection shared with C05), so acknowledged content disappears only by policy; every entry the index classification accepts (OCI index and Docker manifest list) is queued for that child scan.",
+		Decided:    "the manifest body is read through a bound above the limit and an oversized body is refused on every path to the insert (never stored cut); no 2xx / `return nil` is reachable when a commit call failed, was not tested or was discarded (abstract error values tracked per path); content is stored before the index entry naming it; served headers and body come from the recorded descriptor; the child descriptors of nested indexes are rebuilt completely on every index load (worklist discipline of the scan), so manifests acknowledged by digest stay addressable after a restart; the collector removes nothing a retained manifest references (skip-set discipline, sweep guards and root selection shared with C05), so acknowledged content disappears only by policy; every entry the index classification accepts (OCI index and Docker manifest list) is queued for that child scan; in the directory store every index mutation of the store API ends in a save whose result is returned (an acknowledged tag is on disk).",
 		NotDecided: "byte identity after arbitrary histories; range arithmetic (net/http.ServeContent); the full retention policy matrix (C05).",
 	})
 	registerProperty(&Property{ID: "C03", DesignRef: "DESIGN.md §4 C03, §3.4",
-		Rules:      []string{"PV-BOUNDS#taglist", "TS-SORT", "TS-REFTAG", "TS-GETDESC", "TS-TAGKEEP", "TS-SAVE#api", "TB-GRAMMAR#tag", "TS-RMDESC", "SH-ROOTS#safety", "TS-REFRESP-FLOW"},
+		Rules:      []string{"PV-BOUNDS#taglist", "TS-SORT", "TS-REFTAG", "TS-GETDESC", "TS-TAGKEEP", "TS-SAVE#api", "TB-GRAMMAR#tag", "TS-RMDESC", "SH-ROOTS#safety", "TS-REFRESP-FLOW", "TS-SEARCH-EXACT"},
 		Technique:  "difference-bound (ABCD-style) range proof on go/ssa for request-derived integers; ordering checks on the CFG",
-		Decided:    "every slice bound / index derived from the request's n, page … is proven in range by the dominating conditions (n=0, negative and oversized values cannot panic); the tag list is filled, sorted, truncated, marshalled in that order; a tag is recorded only from a grammar-checked reference; tag lookups return the annotated entry and digest lookups a bare descriptor (what makes ‘delete a tag’ and ‘delete a digest’ differ); a tagged entry of the index is a root of the collector whatever other entries of the same digest say (a tag that was never deleted is not dropped by a collection).",
+		Decided:    "every slice bound / index derived from the request's n, page … is proven in range by the dominating conditions (n=0, negative and oversized values cannot panic); the tag list is filled, sorted, truncated, marshalled in that order; a tag is recorded only from a grammar-checked reference; tag lookups return the annotated entry and digest lookups a bare descriptor (what makes ‘delete a tag’ and ‘delete a digest’ differ); a tagged entry of the index is a root of the collector whatever other entries of the same digest say (a tag that was never deleted is not dropped by a collection); a binary-search insertion point is stepped over only where the element there equals the key (a `last` that is not a current tag does not make the next tag vanish).",
 		NotDecided: "the map semantics of AddDesc/RmDesc (value-level, see C18); strictness of the `last` comparison; exactly-once paging.",
 	})
 	registerProperty(&Property{ID: "C04", DesignRef: "DESIGN.md §4 C04, §3.3, §3.6",
-		Rules:      []string{"TS-EXISTS", "TS-MT-CONSISTENT", "TS-REFTAG", "TS-HASHBYTES#expected-digest", "TS-REFUSE#push", "TB-MEDIATYPE", "TS-DETECT", "PV-PATH#digest", "TB-GRAMMAR#tag", "TS-TOMBSTONE", "TB-RESERVED"},
+		Rules:      []string{"TS-EXISTS", "TS-MT-CONSISTENT", "TS-REFTAG", "TS-HASHBYTES#expected-digest", "TS-REFUSE#push", "TB-MEDIATYPE", "TS-DETECT", "PV-PATH#digest", "TB-GRAMMAR#tag", "TS-TOMBSTONE", "TB-RESERVED", "TS-DECLARED-TYPE"},
 		Technique:  techPath + "; table agreement on constants",
 		Decided:    "every path to the index insert passes the parse ok-edge and the ok-edge of an existence verifier that covers every Descriptor field of the parsed struct in the same repository; the declared media type is compared with the body's; reference is a grammar-checked tag or the compared digest; media-type tables agree; nothing mutating is reachable after any refusal; mutators sit behind the read-only guard; the body-kind detector gives up (which skips the comparison) only on paths that found every kind marker it reads empty.",
 		NotDecided: "well-formedness beyond what the JSON decoder and the reference checks establish; equality of the observable state before/after a refusal as a value.",
@@ -92,9 +92,9 @@ func init() {
 		NotDecided: "‘while still serving its content’ for legacy layouts whose conversion needs a write (value-level).",
 	})
 	registerProperty(&Property{ID: "C15", DesignRef: "DESIGN.md §4 C15, §3.6, §3.4",
-		Rules:      []string{"TB-ERRCODE", "TB-ERRPAIR", "TB-ERRWRAP", "SH-SIBLING-STORE#sentinels", "PV-BOUNDS", "PV-ROUTE", "PV-REPO", "TB-NILCONF", "TB-GRAMMAR", "TS-POOL", "LK-HOLD"},
+		Rules:      []string{"TB-ERRCODE", "TB-ERRPAIR", "TB-ERRWRAP", "SH-SIBLING-STORE#sentinels", "PV-BOUNDS", "PV-ROUTE", "PV-REPO", "TB-NILCONF", "TB-GRAMMAR", "TS-POOL", "LK-HOLD", "PV-PATH#digest", "TS-CONTENT-LENGTH"},
 		Technique:  "table agreement on typed constants; condition→code classification on go/ssa; difference-bound range proof",
-		Decided:    "the error constructors equal the OCI code table; every error document follows a constant 4xx and the same condition maps to the same (registered) code at all sibling sites; request-derived integers are proven in range, constant indexes into decoded or cached lists are covered by a length test at the read or at every producer; only grammar-checked repository names are routed; dereferenced settings cannot be nil.",
+		Decided:    "the error constructors equal the OCI code table; every error document follows a constant 4xx and the same condition maps to the same (registered) code at all sibling sites; request-derived integers are proven in range, constant indexes into decoded or cached lists are covered by a length test at the read or at every producer; only grammar-checked repository names are routed; dereferenced settings cannot be nil; digest parts reach a file name only after Validate (the accessors of an unvalidated digest panic on a value without a colon); a Content-Length computed from a byte slice announces the slice that is written.",
 		NotDecided: "panic freedom in general (index arithmetic not derived from request integers); 5xx-vs-4xx classification of store errors.",
 	})
 	registerProperty(&Property{ID: "C16", DesignRef: "DESIGN.md §4 C16, §3.4",
@@ -110,9 +110,9 @@ func init() {
 		NotDecided: "losslessness; grouping by actual subject; equality of the results of repeated conversions (value-level).",
 	})
 	registerProperty(&Property{ID: "C19", DesignRef: "DESIGN.md §4 C19, §3.6",
-		Rules:      []string{"TB-FLAGS", "TB-DEFAULTS", "TB-NILCONF", "TB-ROUTE", "LK-SHUTDOWN", "LK-GUARD-SERVER", "TS-SHUTDOWN", "TS-CONF-LIST", "FS-RO", "TS-REFERRER-CALL#setting", "SH-CONVERT-MARK#setting", "PV-CLIENT-KEY"},
+		Rules:      []string{"TB-FLAGS", "TB-DEFAULTS", "TB-NILCONF", "TB-ROUTE", "LK-SHUTDOWN", "LK-GUARD-SERVER", "TS-SHUTDOWN", "TS-CONF-LIST", "FS-RO", "TS-REFERRER-CALL#setting", "SH-CONVERT-MARK#setting", "PV-CLIENT-KEY", "TS-RATE-COUNTED", "TS-WARN-ALL", "TS-SIGNAL-CTX"},
 		Technique:  "table agreement on the typed AST (flags, option fields, configuration paths, defaults); guard dominance in the router; lock analysis of the shutdown path",
-		Decided:    "flag → option → configuration path wiring equals the documented table, flag defaults equal SetDefaults defaults, defaulting never overwrites a set value; every mutating route is gated by its switch; the rate-limit entry is updated under one mutex; the shutdown path is free of lock cycles and closes the store on every path on which the HTTP shutdown succeeded; the client address the rate limiter keys by is never cut at the first colon of RemoteAddr (IPv6 clients keep distinct counters).",
+		Decided:    "flag → option → configuration path wiring equals the documented table, flag defaults equal SetDefaults defaults, defaulting never overwrites a set value; every mutating route is gated by its switch; the rate-limit entry is updated under one mutex; the shutdown path is free of lock cycles and closes the store on every path on which the HTTP shutdown succeeded; the client address the rate limiter keys by is never cut at the first colon of RemoteAddr (IPv6 clients keep distinct counters); the request that creates a rate-limit entry or opens a new accounting window is counted in it; the configured warnings are added before anything in the router can answer; the context the command hands to Shutdown is not one the termination signal cancels.",
 		NotDecided: "per-second accounting; signal handling outcome; every-combination behaviour as values.",
 	})
 	registerProperty(&Property{ID: "C20", DesignRef: "DESIGN.md §4 C20, §3.3",
